@@ -187,4 +187,73 @@ CHECKS = {
              "updates (RenameAccount, SetSyncedTo, Extend*, Next* address cache, Import*, SetBirthday, ChangePassphrase, NewScopedKeyManager; 6 of them as "
              "retry_differs consequences) are recorded known findings (same root cause as C08's S4/S10/S11). One failing write per database transaction; commit "
              "failures are C08/C11. Trusted: the hand transcription (tie = exact write-count correspondence), go/ast extractor, faultdb, bbolt. No axioms."),
+    "C06": dict(
+        text="12 theorems (Print Assumptions closed; coqchk: no axioms). Model Select/Eligible.v transcribed from createtx.go/wallet.go: eligible_one = "
+             "findEligibleOutputs with its tests in code order (allow-filter, confirmed/confirms incl. the -1 and future-height cases, coinbase maturity, lock "
+             "set, address lookup, scope, account); explicit_select = the eligibleByOutpoint loop, parameterised by the regenerated duplicate-test fact; arrange = "
+             "descending sort for largest-first and ANY permutation of the positively yielding subset for random; the prefix-accumulating input source; "
+             "publishing = the Seen event of the transaction-store model; candidates = unspent_outputs of Tx/Store.v. Proved for every chain-consistent history, "
+             "request, lock set, height, permutation and target sequence (using the closed store refinement): every input of a created transaction is a credited "
+             "output of a known transaction with spent_by_known = false and leased = false in the ledger's terms, belongs to the requested account and scope, is "
+             "not locked, has confirms >= minconf and, if coinbase, >= maturity; inputs are duplicate-free (explicit selection: under the regenerated fact, "
+             "C06_refuted_duplicate_selection for the pre-fix code); an explicit selection containing an ineligible outpoint is refused; after Seen t no later "
+             "created transaction (any wallet-side event sequence in between) spends an input of t. Tie to the code: real wallet.Wallet over simchain, a "
+             "77-scenario matrix plus random histories on all four address types and several accounts (coinbase maturity, reorgs, LockOutpoint, LeaseOutput, "
+             "SendOutputs/CreateSimpleTx/SendOutputsWithInput/FundPsbt, explicit selections incl. spent/locked/leased/immature/foreign/unknown/duplicate), each "
+             "request re-evaluated on the model and judged by an independent ledger kept by the harness.",
+        note="Defect S8 found and repaired in two commits (explicit selection, FundPsbt caller inputs); replays run first from corpus/C06. PARTIAL: signature "
+             "validity is not proved - every non-dry-run input is run through txscript.NewEngine(StandardVerifyFlags) with an independent prev-out fetcher; "
+             "txCreator serialisation not modelled; the address manager lookup is a parameter of the model (C03's subject); FundPsbt with caller inputs asserts "
+             "only ownership and single use (callers lease their inputs before funding); FundPsbt+FinalizePsbt on BIP44 P2PKH inputs attaches a witness to a "
+             "non-witness input (ComputeInputScript is documented for witness key spends only) - observation, not asserted. Trusted: go/ast extractor, hooks."),
+    "C20": dict(
+        text="Model Tx/Publish.v of reliablyPublishTransaction / publishTransaction / resendUnminedTxs over the closed store refinement; which branch removes "
+             "or errors is regenerated from wallet.go (go/ast) into Generated/PublishFacts.v and decided by eq_refl. Proved, unbounded, for every store state "
+             "satisfying Inv (closed over all chain-consistent histories: C20_after_every_history): a rejected or subscription-failed FRESH transaction => error "
+             "result and Inv for the SAME facts, hence every balance (all minconf/sync/time), the spendable set and the unconfirmed set equal the pre-attempt "
+             "ones; already-known/confirmed => the same with success; accepted / already-in-mempool => facts = spec_seen, the tx is unconfirmed exactly once, "
+             "balances equal the ledger's; a refused re-broadcast of a recorded tx => spec_abandon (it and every transitive unconfirmed spender gone, the rest "
+             "stays); fuel never runs out; resend, for both map orders of DependencySort (C14's theorem): the offered list is a permutation of the unconfirmed "
+             "set, each once, parents first. Tie to the code: real wallet + simchain, every answer class at every broadcast and resend position, random histories "
+             "(chained unconfirmed sends, leases, republish of unconfirmed/confirmed/forgotten txs, restarts with VerifResendUnminedTxs and with SynchronizeRPC + "
+             "ClientConnected + RescanFinished); balances, UnspentOutputs and the unmined set compared after every event with model and spec; the order of "
+             "SendRawTransaction calls checked with Kahn.admissible.",
+        note="Defect S9 found and repaired; replay runs first from corpus/C20. Fresh = unknown tx with no unconfirmed spender of its outputs that a node would "
+             "relay (event_ok (Seen t)). PARTIAL: timing of the asynchronous `go resendUnminedTxs()` is exercised, not modelled; failures of walletdb.Update / "
+             "requireChainClient are outside the model. Observation: publishing an already CONFIRMED wallet tx that the backend answers as known/confirmed/"
+             "rejected removes its unconfirmed children (RemoveUnminedTx is called unconditionally). Trusted: go/ast extractor, simchain, id projection. No axioms."),
+    "C16": dict(
+        text="Model Recovery/Recovery.v of BranchRecoveryState (ExtendHorizon counting invalid children, ReportFound, pruning) / recoverScopedAddresses (explicit "
+             "BatchIndex and batch[BatchIndex+1:]) / Resurrect / extendAddresses / addRelevantTx over an abstract chain, and of locateBirthdayBlock (left/right/mid "
+             "arithmetic, the 2 h delta in both directions). 9 theorems: for every invalid-child predicate, every scope set, every W, every batch size, every "
+             "birthday height and every list of interruption points with resurrect in between: if each scanned block pays, per branch, only valid indices whose "
+             "valid-rank is below rank(1 + highest index paid in EARLIER blocks) + W (and txids are distinct, no outpoint spent twice) then after recovery of a "
+             "fresh wallet every paid path is known and marked used, the recorded transactions are exactly (in chain order, once) those paying a wallet path or "
+             "spending an earlier unspent wallet output, the unspent set is the chain's ledger, each branch's next index is 1 + the highest paid index, synced-to is "
+             "the tip; C16_same_block_beyond_window_is_missed shows the 'earlier blocks' wording is exactly the hypothesis the code needs. Birthday search: for "
+             "every timestamp list and birthday the loop terminates on genesis or a block stamped at most birthday + 2h, hence (non-decreasing timestamps) not later "
+             "than any block stamped later than birthday + 2h. Tie to the code: real Wallet.recovery over simchain (real chain.BlockFilterer), random usage patterns "
+             "satisfying / violating the look-ahead by one index, W in {1,2,5,20}, all four default scopes, later spends of recovered outputs, chains crossing the "
+             "2000-block batch boundary, interrupted-and-resumed on a reopened wallet, locked and unlocked; VerifLocateBirthdayBlock on random monotone timestamp lists.",
+        note="Exercised only: locked vs unlocked (the model has no lock state) and CalculateBalance = sum of the unspent set (C01's subject). Invalid children are "
+             "model-only (cannot be produced on real keys). 'A block that could pay the wallet' is read as 'stamped later than the searched birthday + 2h' (the stored "
+             "birthday is creation time minus 48 h); within the +-2h tolerance the search may return a block later than the first block stamped after the birthday "
+             "(C16_birthday_within_tolerance_not_first) - coded tolerance, not flagged. Trusted: path-to-address identification, simchain, walletenv. No axioms."),
+    "C04": dict(
+        text="Model Addr/Taint.v: every value waddrmgr stores is a list of symbolic terms (Enc keyid t | Hash | Kdf | Clear atom | Cat | Const), atoms classed "
+             "Secret, Passphrase, Sensitive or Public; 17 operations each yield their bucket writes and deletes transcribed from manager.go / scoped_manager.go / "
+             "db.go. 11 theorems for every history and EVERY commit boundary: a passphrase occurs only below a one-way function, a secret only below a sealing under "
+             "cryptoPriv/cryptoScript/masterPriv, a sensitive atom only below a sealing or a hash, the seed and derived address private keys are never written; lock "
+             "and unlock write nothing; after conversion to watching-only and any continuation (reopen included) no row holds private material in any form - outside "
+             "K = histories importing a secret taproot script, with the witness C04_watch_only_residue_at_K (regenerated fact wo_strips_taproot); every address row "
+             "survives conversion with its public fields; Unlock answers ErrWatchingOnly for any passphrase and every modelled private call is refused. Tie to the "
+             "code: real waddrmgr and wallet over bbolt; after EVERY committed transaction the whole file (free pages included) is scanned for every secret produced "
+             "so far (raw, hex, base58, WIF, xprv/tprv string, 78-byte serialization), both passphrases incl. old ones, and every sensitive item; every row's shape "
+             "is compared with the model's term, each sealed field classified by trial decryption with keys the harness derives itself (and the all-zero key); "
+             "after conversion and reopen every private accessor and every address is probed.",
+        note="PARTIAL: the raw/serialized-text clause is decided for the listed encodings; crash points = commit boundaries (bbolt's atomic commit trusted); "
+             "strength of secretbox/scrypt/sha256 is symbolic (C17); page cache, swap, process memory out of scope; the transaction-store namespace is not "
+             "modelled (the wallet-level run shows the output script appears in the clear once a transaction is recorded - the property's 'until'). Observations "
+             "not raised (letter of C04 holds): the script crypto key is all-zero (S5), deletePrivateKeys misses adtTaprootScript, conversion does not scrub bbolt "
+             "free pages (old sealed blobs remain until pages are reused). No axioms."),
 }
